@@ -509,8 +509,15 @@ async fn episode(p: &EpParams, mt: bool) -> EpReport {
 
     // C08: the second topic is deleted while its publisher is still at work (a publish that was
     // on its way in when the deletion was carried out is either refused or numbered like any other)
-    if prof == Profile::C08 && two_topics && rng.chance(1, 3) {
+    if prof == Profile::C08 && rng.chance(1, 3) {
         let cx = mk(&w);
+        // (a topic of its own, with a subscription and a few publishes that have returned already)
+        let tb = topic_name(1, 7);
+        let _ = cx.create_topic(&tb).await;
+        let _ = cx.create_sub(&sub_name(1, 70), &tb, 10).await;
+        for j in 0..rng.range(1, 4) {
+            let _ = cx.publish(&tb, &[Msg::tagged(&format!("c{}#pre{}", cx.id, j))]).await;
+        }
         let tb2 = tb.clone();
         let mut r = rng.fork(18);
         tasks.push(tokio::spawn(async move {
